@@ -1,9 +1,11 @@
 import AsynqModel.Lib.Dedup
 import AsynqModel.Proofs.Dedup
 import AsynqModel.Proofs.DedupSim
+import AsynqModel.Proofs.DedupInv
 /-! C12: the `.asynq()` call is accepted by the observer and keeps the simulation relation -/
 namespace AsynqModel.Dedup
 set_option linter.unusedSimpArgs false
+set_option linter.unusedVariables false
 
 theorem pt_append (fns : List FnDecl) (s : St) (w : Watch) (h : Rel fns s w) (task' : Task) (x' : WTask)
     (hr : TRel fns task' x') :
@@ -33,15 +35,20 @@ theorem wf_append (fns : List FnDecl) (s : St) (w : Watch) (h : Rel fns s w) (ta
   have hlt : t < s.tasks.length := (List.getElem?_eq_some_iff.mp ha).1
   exact ⟨a, by rw [List.getElem?_append_left hlt]; exact ha, hka, hra, hoa⟩
 
-theorem sim_call (fns : List FnDecl) (hs : sigsOk fns = true) (s : St) (w : Watch) (c : Spell) (h : Rel fns s w) :
+theorem contains_of_mem (P : List (Option Nat)) (o : Option Nat) (h : o ∈ P) : P.contains o = true := by
+  simpa using h
+
+theorem sim_call (fns : List FnDecl) (s : St) (w : Watch) (c : Spell) (hop : opOk fns (.call c) = true)
+    (h : Rel fns s w) :
     ∃ w', watchStep fns w (observe fns s (.call c)).2 = .ok w' ∧ Rel fns (observe fns s (.call c)).1 w' := by
-  simp only [watchStep, h.live, Bool.false_eq_true, ↓reduceIte, observe_op, observe_res, observe_fst]
+  simp only [watchStep, observe_op, observe_res, observe_fst]
   cases hd : fns[c.fn]? with
   | none =>
     simp only [step, hd]
     exact ⟨w, rfl, h⟩
   | some d =>
     simp only [step, hd]
+    simp only [opOk, hd] at hop
     cases hb : d.sig.bind (effArgs d c) c.kw with
     | error e =>
       -- not a well-formed call: the model creates nothing
@@ -67,26 +74,28 @@ theorem sim_call (fns : List FnDecl) (hs : sigsOk fns = true) (s : St) (w : Watc
     | ok b =>
       obtain ⟨tup, hk⟩ := key_ok_of_bind d.sig _ _ b hb
       have hkr : KeyRel fns { tup := tup, th := c.th, fn := c.fn } { fn := c.fn, th := c.th, b := b } :=
-        ⟨rfl, rfl, d, _, _, hd, hb, hk⟩
+        ⟨rfl, rfl, d, _, _, hd, hop, hb, hk⟩
       have hag := h.agree _ _ hkr
       simp only [hk]
       cases hm : mget s.table { tup := tup, th := c.th, fn := c.fn } with
       | none =>
         rw [hm] at hag
-        simp only [← hag, create, hb, ↓reduceIte, h.len]
+        have hcn := contains_of_mem _ _ hag
+        simp only [create, hb, ↓reduceIte, h.len, bne_self_eq_false, Bool.false_eq_true, hcn,
+          List.cons_append, List.nil_append, List.isEmpty_cons]
         refine ⟨_, rfl, ?_⟩
-        have hrel' : TRel fns { key := { tup := tup, th := c.th, fn := c.fn }, b := b, reg := true, running := false, out := none }
-            { rk := { fn := c.fn, th := c.th, b := b }, reg := true, running := false, done := false } :=
+        have hrel' : TRel fns { key := { tup := tup, th := c.th, fn := c.fn }, b := b, reg := true, started := false, running := false, out := none }
+            { rk := { fn := c.fn, th := c.th, b := b }, started := false, running := false, done := false } :=
           ⟨fun z => by simp at z, rfl, rfl, rfl, hkr⟩
         obtain ⟨hlen, hpt⟩ := pt_append fns s w h _ _ hrel'
         constructor
         · exact hlen
         · exact hpt
         · intro k rk hr
-          simp only [mget_mset]
-          have := keyrel_inj fns hs _ _ _ _ hr hkr
+          simp only [mget_mset, pget_pset]
+          have := keyrel_inj fns _ _ _ _ hr hkr
           by_cases e : k = { tup := tup, th := c.th, fn := c.fn }
-          · simp [e, this.mp e, h.len]
+          · simp [e, this.mp e]
           · have e' : ¬ rk = { fn := c.fn, th := c.th, b := b } := fun z => e (this.mpr z)
             simp only [e, e', ↓reduceIte]
             exact h.agree k rk hr
@@ -98,65 +107,105 @@ theorem sim_call (fns : List FnDecl) (hs : sigsOk fns = true) (s : St) (w : Watc
             subst hm0
             exact ⟨_, List.getElem?_concat_length, e.symm, rfl, rfl⟩
           · exact wf_append fns s w h _ k t hm0
-        · rfl
       | some t0 =>
         rw [hm] at hag
         obtain ⟨task0, ht0, _, _, _⟩ := h.wf _ t0 hm
         obtain ⟨x0, hx0, hr0⟩ := rel_info fns s w h t0 task0 ht0
-        have hlt0 : t0 < w.info.length := by rw [h.len]; exact (List.getElem?_eq_some_iff.mp ht0).1
-        simp only [← hag, ht0, hx0, Option.map_some, Option.getD_some]
+        simp only [ht0]
         cases hrun : task0.running with
         | true =>
-          simp only [hr0.running hrun, ↓reduceIte, create, hb, h.len, Bool.false_eq_true]
+          -- issued while the body of the in-flight task is executing: a private task, the entry stays
+          have hmr : w.mayRun t0 = true := by simp [Watch.mayRun, hx0, hr0.running hrun]
+          have hin : some t0 ∈ (if (pget w.poss { fn := c.fn, th := c.th, b := b }).contains none = true
+                then [some s.tasks.length] else []) ++
+              (pget w.poss { fn := c.fn, th := c.th, b := b }).filter w.runningCand := by
+            apply List.mem_append_right
+            exact List.mem_filter.mpr ⟨hag, by simp [Watch.runningCand, hmr]⟩
+          have hne : ((if (pget w.poss { fn := c.fn, th := c.th, b := b }).contains none = true
+                then [some s.tasks.length] else []) ++
+              (pget w.poss { fn := c.fn, th := c.th, b := b }).filter w.runningCand).isEmpty = false := by
+            cases hl : ((if (pget w.poss { fn := c.fn, th := c.th, b := b }).contains none = true
+                then [some s.tasks.length] else []) ++
+              (pget w.poss { fn := c.fn, th := c.th, b := b }).filter w.runningCand) with
+            | nil => rw [hl] at hin; contradiction
+            | cons _ _ => rfl
+          simp only [↓reduceIte, create, hb, h.len, bne_self_eq_false, Bool.false_eq_true, hne]
           refine ⟨_, rfl, ?_⟩
-          have hrel' : TRel fns { key := { tup := tup, th := c.th, fn := c.fn }, b := b, reg := false, running := false, out := none }
-              { rk := { fn := c.fn, th := c.th, b := b }, reg := false, running := false, done := false } :=
+          have hrel' : TRel fns { key := { tup := tup, th := c.th, fn := c.fn }, b := b, reg := false, started := false, running := false, out := none }
+              { rk := { fn := c.fn, th := c.th, b := b }, started := false, running := false, done := false } :=
             ⟨fun z => by simp at z, rfl, rfl, rfl, hkr⟩
           obtain ⟨hlen, hpt⟩ := pt_append fns s w h _ _ hrel'
           constructor
           · exact hlen
           · exact hpt
-          · exact h.agree
+          · intro k rk hr
+            simp only [pget_pset]
+            have := keyrel_inj fns _ _ _ _ hr hkr
+            by_cases e : k = { tup := tup, th := c.th, fn := c.fn }
+            · simp only [this.mp e, ↓reduceIte, e, hm]
+              exact hin
+            · have e' : ¬ rk = { fn := c.fn, th := c.th, b := b } := fun z => e (this.mpr z)
+              simp only [e', ↓reduceIte]
+              exact h.agree k rk hr
           · intro k t hm0
             exact wf_append fns s w h _ k t hm0
-          · rfl
         | false =>
-          -- the body may still be executing after a `throw` resumption: then the observer does not constrain the call
-          by_cases hxr : x0.running = true
-          · simp only [hxr, Bool.false_eq_true, ↓reduceIte, hlt0]
-            exact ⟨w, rfl, h⟩
-          · simp only [hxr, Bool.false_eq_true, ↓reduceIte]
-            exact ⟨w, rfl, h⟩
+          -- that very task
+          have hc := contains_of_mem _ _ hag
+          simp only [Bool.false_eq_true, ↓reduceIte, hc]
+          refine ⟨_, rfl, ?_⟩
+          constructor
+          · exact h.len
+          · exact h.pt
+          · intro k rk hr
+            simp only [pget_pset]
+            have := keyrel_inj fns _ _ _ _ hr hkr
+            by_cases e : k = { tup := tup, th := c.th, fn := c.fn }
+            · simp [this.mp e, e, hm]
+            · have e' : ¬ rk = { fn := c.fn, th := c.th, b := b } := fun z => e (this.mpr z)
+              simp only [e', ↓reduceIte]
+              exact h.agree k rk hr
+          · exact h.wf
 
 theorem run_cons (fns : List FnDecl) (s : St) (op : Op) (ops : List Op) :
     run fns s (op :: ops) = (observe fns s op).2 :: run fns (observe fns s op).1 ops := rfl
 
-theorem sim_step (fns : List FnDecl) (hs : sigsOk fns = true) (s : St) (w : Watch) (op : Op)
+theorem sim_step (fns : List FnDecl) (s : St) (w : Watch) (op : Op) (hop : opOk fns op = true)
     (h : Rel fns s w) :
-    ∃ w', watchStep fns w (observe fns s op).2 = .ok w' ∧ (w'.gaveUp = true ∨ Rel fns (observe fns s op).1 w') := by
+    ∃ w', watchStep fns w (observe fns s op).2 = .ok w' ∧ Rel fns (observe fns s op).1 w' := by
   cases op with
-  | call c => obtain ⟨w', h1, h2⟩ := sim_call fns hs s w c h; exact ⟨w', h1, Or.inr h2⟩
-  | dirty c => exact sim_dirty fns hs s w c h
-  | start t => obtain ⟨w', h1, h2⟩ := sim_start fns s w t h; exact ⟨w', h1, Or.inr h2⟩
-  | resume t b => obtain ⟨w', h1, h2⟩ := sim_resume fns s w t b h; exact ⟨w', h1, Or.inr h2⟩
-  | suspend t => obtain ⟨w', h1, h2⟩ := sim_suspend fns s w t h; exact ⟨w', h1, Or.inr h2⟩
-  | complete t o => obtain ⟨w', h1, h2⟩ := sim_complete fns hs s w t o h; exact ⟨w', h1, Or.inr h2⟩
-  | threadEnd th => exact ⟨w, by simp [watchStep, h.live, observe, step], Or.inr (by simpa [observe, step] using h)⟩
+  | call c => exact sim_call fns s w c hop h
+  | dirty c => exact sim_dirty fns s w c hop h
+  | start t => exact sim_start fns s w t h
+  | resume t b => exact sim_resume fns s w t b h
+  | suspend t => exact sim_suspend fns s w t h
+  | complete t o => exact sim_complete fns s w t o h
+  | threadEnd th => exact ⟨w, by simp [watchStep, observe, step], by simpa [observe, step] using h⟩
 
-theorem watchRun_ok (fns : List FnDecl) (hs : sigsOk fns = true) (ops : List Op) (s : St) (w : Watch)
-    (h : w.gaveUp = true ∨ Rel fns s w) :
-    ∃ w', watchRun fns w (run fns s ops) = .ok w' := by
+theorem watchRun_ok (fns : List FnDecl) (ops : List Op) (hs : histOk fns ops = true) (s : St) (w : Watch)
+    (h : Rel fns s w) :
+    ∃ w', watchRun fns w s.table.length (run fns s ops) = .ok w' := by
   induction ops generalizing s w with
   | nil => exact ⟨w, rfl⟩
   | cons op ops ih =>
     rw [run_cons]
-    cases h with
-    | inl hg =>
-      simp only [watchRun, watch_gaveUp fns w _ hg]
-      exact ih _ w (Or.inl hg)
-    | inr hr =>
-      obtain ⟨w', h1, h2⟩ := sim_step fns hs s w op hr
-      simp only [watchRun, h1]
-      exact ih _ w' h2
+    simp only [histOk, List.all_cons, Bool.and_eq_true] at hs
+    obtain ⟨w', h1, h2⟩ := sim_step fns s w op hs.1 h
+    simp only [watchRun, h1, step_size fns s op, ↓reduceIte]
+    exact ih (by simpa [histOk] using hs.2) _ w' h2
+
+theorem histOk_of_sigsOk (fns : List FnDecl) (hs : sigsOk fns = true) (ops : List Op) : histOk fns ops = true := by
+  simp only [histOk, List.all_eq_true]
+  intro op _
+  have hd : ∀ (c : Spell), (match fns[c.fn]? with
+      | none => true
+      | some d => callOk d.sig (effArgs d c)) = true := by
+    intro c
+    cases hf : fns[c.fn]? with
+    | none => rfl
+    | some d =>
+      simp only [sigsOk, List.all_eq_true] at hs
+      exact callOk_of_ok _ _ (hs d (List.mem_of_getElem? hf))
+  cases op <;> simp only [opOk] <;> first | exact hd _ | rfl
 
 end AsynqModel.Dedup
